@@ -22,7 +22,9 @@ RULE = ("Host H (real Zeroconf: 1..2 registered services, an active browser, a s
         "legacy ports, as multicast and unicast deliveries - interleaved with valid traffic and clock advances of 0 ms..20 s. "
         "Monitors: nothing reaches the event-loop exception handler (BaseException included); an oversized datagram changes "
         "neither cache, registry, question history nor the wire; afterwards canary 1 (a fresh PTR query) is answered with H's "
-        "PTR within 1.4 s and canary 2 (a second real instance announcing a brand-new service) reaches H's browser as Added "
+        "PTR within 1.4 s, canary 2 (a second real instance announcing a brand-new service) reaches H's browser as Added and canary 3 "
+        "(a service announced, withdrawn by a goodbye alone or mixed with new/refreshed/flush records in one datagram, and "
+        "announced again) is reported Added both times "
         "within 1.5 s. Distinct = (generator, source class, delivery, handler reached, outcome) classes.")
 ASSUMPTIONS = ["canary names are unique per run so that earlier fuzz traffic cannot have pre-empted them"]
 
@@ -32,7 +34,8 @@ T2 = "_ipp._tcp.local."
 
 def floors(tier):
     q = tier == "quick"
-    return {"c15.no_escape": 80000 if q else 10000000, "c15.oversize_ignored": 3000 if q else 400000, "c15.canary_query": 1000 if q else 100000, "c15.canary_browse": 1000 if q else 100000}
+    return {"c15.no_escape": 80000 if q else 10000000, "c15.oversize_ignored": 3000 if q else 400000, "c15.canary_query": 1000 if q else 100000, "c15.canary_browse": 1000 if q else 100000,
+            "c15.canary_reannounce": 1000 if q else 100000}
 
 
 def plan(tier, seed):
@@ -230,6 +233,33 @@ def run_stream(res: Result, seed: int) -> None:
             hits = [x for x in added if x[1].lower() == cname.lower() and x[0] <= t_reg + 1500]
             if not hits:
                 viol("c15.canary_browse", "canary_announcement_not_delivered", "browser of H did not report %s within 1.5 s" % cname)
+            # ---- canary 3: a service that is withdrawn (in one of several datagram shapes) and announced again must be reported again
+            res.mon("c15.canary_reannounce")
+            rname = "regular-%d.%s" % (seed & 0xFFFF, T2)
+            other = "bystander-%d.%s" % (seed & 0xFFFF, T2)
+            ann = [(("PTR", T2, (rname,)), 4500, False), (("SRV", rname, (0, 0, 99, "regular-host.local.")), 120, True),
+                   (("TXT", rname, (b"\x03a=1",)), 4500, True), (("A", "regular-host.local.", (b"\x0a\x00\x00\x09",)), 120, True)]
+            fake = ("10.0.0.201", 5353)
+            sim.net.inject_now(host, R.build_response(ann, id_=0), fake)
+            await sim.sleep_ms(1100)
+            first = [x for x in added if x[1].lower() == rname.lower()]
+            shape = rng.choice(["goodbye-alone", "goodbye+new-record", "goodbye+refresh", "new-record+goodbye+flush"])
+            bye = (("PTR", T2, (rname,)), 0, False)
+            newrec = (("PTR", T2, (other,)), 4500, False)
+            wd = {"goodbye-alone": [bye], "goodbye+new-record": [bye, newrec], "goodbye+refresh": [bye, (("PTR", T2, (cname,)), 4500, False)],
+                  "new-record+goodbye+flush": [newrec, bye, (("TXT", rname, (b"\x03a=2",)), 4500, True)]}[shape]
+            sim.net.inject_now(host, R.build_response(wd, id_=0), fake)
+            await sim.sleep_ms(1100)
+            t_again = sim.now_ms()
+            sim.net.inject_now(host, R.build_response(ann, id_=0), fake)
+            await sim.sleep_ms(300)
+            again = [x for x in added if x[1].lower() == rname.lower() and x[0] >= t_again]
+            res.cls("canary3", shape)
+            if not first:
+                viol("c15.canary_reannounce", "canary_announcement_not_delivered", "browser of H did not report the injected announcement of %s" % rname)
+            elif not again:
+                viol("c15.canary_reannounce", "reannouncement_not_delivered", "%s was announced, withdrawn (%s) and announced again 1.1 s later; the browser of H "
+                     "did not report it again (cached PTRs for the type: %r)" % (rname, shape, sorted(r.alias for r in zc.cache.entries_with_name(T2) if hasattr(r, "alias"))), shape=shape)
             lt.cancel()
             await browser.async_cancel()
             await azc.async_close()
